@@ -18,7 +18,9 @@ Definition overlap_ms := 2000.
 
 (* expectation per node: 0 = must never be banned, 1 = must be banned by the
    deadline, 2 = checkpoint-only liar (should be banned; known F15: is not),
-   3 = may or may not be banned (misbehaviour not guaranteed to be exposed) *)
+   3 = may or may not be banned (misbehaviour not guaranteed to be exposed),
+   4 = provable misbehaviour while the ban cannot be recorded (ban store write
+       fault): must be disconnected all the same *)
 Record bcase := mkBCase {
   b_expect : list Z;
   (* samples: time ms, banned flags, connected flags (per node) *)
@@ -45,6 +47,15 @@ Definition finally_connected (c : bcase) (i : nat) : bool :=
   | [] => false
   end.
 
+(* node i was seen connected and, later, not connected *)
+Fixpoint was_dropped (i : nat) (seen : bool) (l : list (Z * list bool * list bool)) : bool :=
+  match l with
+  | [] => false
+  | (_, _, k) :: rest =>
+    if nthb k i then was_dropped i true rest
+    else if seen then true else was_dropped i false rest
+  end.
+
 (* longest time node i is seen banned && connected; [since] = start of the
    current overlap *)
 Fixpoint max_overlap (i : nat) (since : option Z) (best : Z) (l : list (Z * list bool * list bool)) : Z :=
@@ -68,6 +79,8 @@ Definition node_bad (c : bcase) (i : nat) (e : Z) : Z :=
   if (e =? 0) && ever_banned c i then 1                          (* innocent node banned *)
   else if (e =? 1) && negb (finally_banned c i) then 2          (* provable misbehaviour not banned *)
   else if (e =? 2) && negb (finally_banned c i) then 15         (* F15 *)
+  else if (e =? 4) && existsb (fun s => let '(_, _, k) := s in nthb k i) (b_samples c)
+                  && negb (was_dropped i false (b_samples c)) then 6  (* misbehaving peer kept although its ban failed *)
   else if finally_banned c i && finally_connected c i then 3    (* connection kept to a banned address *)
   else if overlap_ms <? max_overlap i None 0 (b_samples c) then 4
   else if 0 <? nth i (b_versions_after_ban c) 0 then 5          (* handshake with a banned address *)
